@@ -145,7 +145,7 @@ class C18(Check):
     }
     required_probes = [
         "crash_with_nonzero_integral", "crash_with_live_velocity_mismatch", "dt_changed_across_checkpoint", "queries_dirtied_scratch",
-        "restart_in_new_process", "same_process_restart", "helper_stale_set", "helper_empty_dir", "helper_clock_skew", "helper_torn_set", "helper_five_digit_index",
+        "restart_in_new_process", "same_process_restart", "helper_stale_set", "late_start_time", "helper_empty_dir", "helper_clock_skew", "helper_torn_set", "helper_five_digit_index",
     ]
     tiers = {
         "quick": {"runs": 128, "batch": 1, "timeout": 600},
@@ -216,6 +216,7 @@ class C18(Check):
         c["nu"] = rng.choice([1.0e-2, 3.0e-3, 5.0e-2])
         c["rho"] = rng.choice([1.0, 0.5, 2.0])
         c["init_sub"] = prng.sub_seed(rng)
+        c["time0"] = rng.choice([0.0, 0.0, 250.0, 1.0e4])  # restarted production runs start late
         c["vort_amp"] = rng.choice([2.0, 0.0, 5.0])
         if dim == 3:
             c["filter"] = rng.choice([None, None, {"type": "multiplicative", "order": rng.randint(1, 3)}, {"type": "convolution", "order": rng.randint(1, 3)}])
@@ -279,6 +280,8 @@ class C18(Check):
                 raise
             traj, dts = ph1["traj"], ph1["dts"]
             res.add_sim("flow_steps", n)
+            if program.get("time0", 0.0) > 0:
+                res.probe("late_start_time")
             res.add_sim("flow_time", float(traj[-1]["time"][0]))
             finite = bool(np.isfinite(traj[-1]["vorticity"]).all())
             if not finite:
@@ -544,7 +547,7 @@ class C18(Check):
                 del c["bodies"][i]
                 c["with_forcing"] = True
                 yield c
-        for key, val in (("filter", None), ("free_stream", None), ("zone", 0), ("poisson", "greens"), ("vort_amp", 0.0), ("fresh_interpreter", False), ("same_process", False)):
+        for key, val in (("time0", 0.0), ("filter", None), ("free_stream", None), ("zone", 0), ("poisson", "greens"), ("vort_amp", 0.0), ("fresh_interpreter", False), ("same_process", False)):
             if key in program and program[key] != val:
                 c = copy.deepcopy(program)
                 c[key] = val
